@@ -33,6 +33,8 @@ def wrap(text, how):
         v = AnsiString(text)
     else:
         v = AnsiString(text)
+    if how == 'u' and len(text) >= 2:
+        v.apply_formatting(AnsiSetting('1'), 1, len(text))        # formatting that starts behind an unformatted head
     if how in ('S', 'T') and text:
         for i in range(len(text)):
             v.apply_formatting(AnsiSetting(rainbow_code(i)), i, i + 1)
@@ -261,7 +263,7 @@ def run_task(task, acc):
         else:
             ts = (task['first'] + s for s in strings(W, b['ws_len'] - 1))
         for t in ts:
-            run_text(t, ('S', 'T', 's'), ws_cases(t), acc)
+            run_text(t, ('S', 'T', 's', 'u'), ws_cases(t), acc)
     elif fam == 'lines':
         for t in (task['first'] + u for u in strings(LINES, 2 if tier == 'quick' else 3)):
             run_text(t, ('S', 'T', 's'), [('splitlines', ()), ('splitlines', (True,)), ('splitlines', (False,)),
